@@ -17,6 +17,9 @@
 (*                   j (conserves, off equilibrium), one species scaled (breaks both), or     *)
 (*                   ceq with the INITIAL state shifted (at equilibrium, not conserving)      *)
 (*   Residual(ns,re,rp)  the formulation: NumSys name, rref_equil, rref_preserv               *)
+(*   Again           HISTORY: the same residual object is evaluated once more, for another    *)
+(*                   equilibrium state of the same system - other constants K, other initial  *)
+(*                   state, passed as parameters; every evaluation is judged by ITS parameters*)
 (* A terminal state is one case: inputs + ExpectedZero + NEq + exact quotients and totals.    *)
 (* Zero-ness of the real (symbolic, 50 digit) residual is decided in the binding layer with   *)
 (* the thresholds carried in the case; PerturbationIsLarge shows nothing lies in between.     *)
@@ -34,10 +37,11 @@ CONSTANTS
     Shifts,      \* set of non-zero rationals: BreakConservation
     PertKinds,   \* subset of {"none", "extent", "scale", "shift0"}
     NumSyss,     \* subset of {"Lin", "Log", "Square", "LinRel", "LinTanh"}
-    RrefFlags    \* set of <<rref_equil, rref_preserv>>
+    RrefFlags,   \* set of <<rref_equil, rref_preserv>>
+    MaxEvals     \* number of evaluations of one residual object (1 = no history)
 
-VARIABLES phase, sys, ceq, K, xi, cinit, pert, c, cfg, expd
-vars == <<phase, sys, ceq, K, xi, cinit, pert, c, cfg, expd>>
+VARIABLES phase, sys, ceq, K, xi, cinit, pert, c, cfg, expd, hist
+vars == <<phase, sys, ceq, K, xi, cinit, pert, c, cfg, expd, hist>>
 
 NoPert == [kind |-> "unset", i |-> 0, a |-> QZero]
 NoCfg == [ns |-> "", re |-> FALSE, rp |-> FALSE]
@@ -62,13 +66,13 @@ TotalOff == \E i \in 1..Len(sys.B) : QLe(Hundredth, QAbsDiff(expd.totc[i], expd.
 
 Init ==
     /\ phase = "sys" /\ sys = NoSys /\ ceq = <<>> /\ K = <<>> /\ xi = <<>>
-    /\ cinit = <<>> /\ pert = NoPert /\ c = <<>> /\ cfg = NoCfg /\ expd = NoExp
+    /\ cinit = <<>> /\ pert = NoPert /\ c = <<>> /\ cfg = NoCfg /\ expd = NoExp /\ hist = <<>>
 
 ------------------------------------------------------------------------------
 ChooseSystem(S) ==
     /\ phase = "sys" /\ S # {} /\ S \subseteq HomogRx /\ Independent(S)
     /\ sys' = SysInfo(S) /\ phase' = "state"
-    /\ UNCHANGED <<ceq, K, xi, cinit, pert, c, cfg, expd>>
+    /\ UNCHANGED <<ceq, K, xi, cinit, pert, c, cfg, expd, hist>>
 
 DefineK(st) == [i \in 1..NR |-> Quotient(sys.nu[i], st)]
 
@@ -77,13 +81,13 @@ SetConc(v) ==
     /\ phase = "state" /\ Len(ceq) < NS /\ v[1] > 0 /\ v[2] > 0
     /\ ceq' = Append(ceq, Norm(v))
     /\ IF Len(ceq') = NS THEN K' = DefineK(ceq') /\ phase' = "extent" ELSE UNCHANGED <<K, phase>>
-    /\ UNCHANGED <<sys, xi, cinit, pert, c, cfg, expd>>
+    /\ UNCHANGED <<sys, xi, cinit, pert, c, cfg, expd, hist>>
 
 SetPattern(a, b) ==
     /\ phase = "state" /\ ceq = <<>> /\ Len(GridSeq) > 0
     /\ ceq' = [j \in 1..NS |-> Norm(GridSeq[((a * sys.ss[j] + b) % Len(GridSeq)) + 1])]
     /\ K' = DefineK(ceq') /\ phase' = "extent"
-    /\ UNCHANGED <<sys, xi, cinit, pert, c, cfg, expd>>
+    /\ UNCHANGED <<sys, xi, cinit, pert, c, cfg, expd, hist>>
 
 \* st + SUM_i ext_i nu_i
 Along(st, ext) ==
@@ -98,11 +102,11 @@ SetExtent(x) ==
             /\ AllNonNegQ(cinit')
             /\ phase' = "pert"
        ELSE UNCHANGED <<cinit, phase>>
-    /\ UNCHANGED <<sys, ceq, K, pert, c, cfg, expd>>
+    /\ UNCHANGED <<sys, ceq, K, pert, c, cfg, expd, hist>>
 
 Hand(st, ini, p) ==
     /\ c' = st /\ cinit' = ini /\ pert' = p /\ expd' = Judge(st, ini) /\ phase' = "cfg"
-    /\ UNCHANGED <<sys, ceq, K, xi, cfg>>
+    /\ UNCHANGED <<sys, ceq, K, xi, cfg, hist>>
 
 NoPerturb ==
     /\ phase = "pert"
@@ -126,8 +130,21 @@ BreakConservation(j, d) ==
 
 Residual(ns, re, rp) ==
     /\ phase = "cfg"
+    /\ hist = <<>> \/ (ns = cfg.ns /\ re = cfg.re /\ rp = cfg.rp)   \* a re-used object keeps its formulation
     /\ cfg' = [ns |-> ns, re |-> re, rp |-> rp] /\ phase' = "done"
-    /\ UNCHANGED <<sys, ceq, K, xi, cinit, pert, c, expd>>
+    /\ UNCHANGED <<sys, ceq, K, xi, cinit, pert, c, expd, hist>>
+
+\* the evaluation just made, as it goes into the history
+Evaluation == [K |-> K, c |-> c, c0 |-> cinit, pert |-> pert, zero |-> expd.zero, ateq |-> expd.ateq,
+               keeps |-> expd.keeps, q |-> expd.q, totc |-> expd.totc, tot0 |-> expd.tot0]
+
+\* the same residual object (same system, same formulation) is evaluated again with new parameters
+Again ==
+    /\ phase = "done" /\ Len(hist) + 1 < MaxEvals
+    /\ hist' = Append(hist, Evaluation)
+    /\ ceq' = <<>> /\ K' = <<>> /\ xi' = <<>> /\ cinit' = <<>> /\ pert' = NoPert /\ c' = <<>> /\ expd' = NoExp
+    /\ phase' = "state"
+    /\ UNCHANGED <<sys, cfg>>
 
 ------------------------------------------------------------------------------
 (* generators over the configured constants *)
@@ -144,7 +161,7 @@ GenResidual == \E ns \in NumSyss, fl \in RrefFlags : Residual(ns, fl[1], fl[2])
 Next ==
     \/ GenSystem \/ GenConc \/ GenPattern \/ GenExtent
     \/ GenNoPerturb \/ GenBreakQuotient \/ GenScale \/ GenBreakConservation
-    \/ GenResidual
+    \/ GenResidual \/ Again
 
 Done == phase = "done"
 \* the judgement of a perturbed state is made once, in the state reached by the perturbation
@@ -203,6 +220,7 @@ CaseIn ==
      c       |-> c,
      xi      |-> xi,
      pert    |-> pert,
+     hist    |-> hist,
      ns      |-> cfg.ns, re |-> cfg.re, rp |-> cfg.rp]
 
 CaseExp ==
@@ -216,6 +234,7 @@ CaseExp ==
      tolz  |-> 10, tolnz |-> 6]
 
 CaseRec == [in |-> CaseIn, exp |-> CaseExp,
-            cls |-> cfg.ns \o (IF cfg.re THEN "-re" ELSE "") \o (IF cfg.rp THEN "-rp" ELSE "") \o "-" \o pert.kind]
+            cls |-> cfg.ns \o (IF cfg.re THEN "-re" ELSE "") \o (IF cfg.rp THEN "-rp" ELSE "") \o "-" \o pert.kind
+                    \o (IF hist = <<>> THEN "" ELSE "-again")]
 Emit == Done => PrintT(<<"CASE", ToJson(CaseRec)>>)
 =============================================================================
